@@ -70,6 +70,19 @@ def build():
                   E('rule', 'r is Some <==> old(self).keys.set_view().contains(index)'),
                   E('item', 'r is Some ==> J::get_post(&old(self).values, index, &r.unwrap(), &final(self).values)'),
                   E('keys', 'final(self).keys == old(self).keys')])
+    # ---- the provided entry points `Join::join`, `LendJoin::lend_join`, `LendJoin::maybe` (one-liners; N12: as free functions, because a
+    # default method that mentions JoinIter<Self> inside the trait is a specification cycle for Verus)
+    u.fn(JM, ['trait Join', 'fn join'], ret='r', props='C06 C20', free='join_default', key='Join::join(default)',
+         rules=[('N12', r'fn join\(self\) -> JoinIter<Self>\s*where\s*Self: Sized,', 'fn join<J: Join>(self_: J) -> JoinIter<J>'), ('N12', r'JoinIter::new\(self\)', 'JoinIter::new(self_)')],
+         requires=[E('open_pre', 'self_.open_pre()')],
+         ensures=[E('keys', 'r.keys.rem() == sorted_seq(self_.jmask()) && r.keys.set_view() == self_.jmask()'), E('wf', 'r.wf()')])
+    u.fn(LJ, ['trait LendJoin', 'fn lend_join'], ret='r', props='C06 C20', free='lend_join_default', key='LendJoin::lend_join(default)',
+         rules=[('N12', r'fn lend_join\(self\) -> JoinLendIter<Self>\s*where\s*Self: Sized,', 'fn lend_join<J: LendJoin>(self_: J) -> JoinLendIter<J>'), ('N12', r'JoinLendIter::new\(self\)', 'JoinLendIter::new(self_)')],
+         requires=[E('open_pre', 'self_.open_pre()')],
+         ensures=[E('keys', 'r.keys.rem() == sorted_seq(self_.jmask()) && r.keys.set_view() == self_.jmask()'), E('wf', 'r.wf() && r.wf_all()')])
+    u.fn(LJ, ['trait LendJoin', 'fn maybe'], ret='r', props='C06', free='lend_maybe_default', key='LendJoin::maybe(default)',
+         rules=[('N12', r'fn maybe\(self\) -> MaybeJoin<Self>\s*where\s*Self: Sized,', 'fn maybe<J: LendJoin>(self_: J) -> MaybeJoin<J>'), ('N12', r'MaybeJoin\(self\)', 'MaybeJoin(self_)')],
+         ensures=[E('wraps', 'r.0 == self_')])
     # ---- members: REAL trait impls, each checked by Verus against the trait-level contract
     SM = 'src/storage/mod.rs'
     def member(gname, header, pre_file, file, path_hdr, trait, fns=('open', 'get'), rules=(), props='C06', subst=None):
@@ -119,6 +132,14 @@ def build():
          rules=[('N12', r"fn get<'next>\(", "fn get<'rf, 'next, C: Component>("), ('N12', r'Self::Value', RV), ('N8', r"Self::Type<'next>", "PairedStorageWriteExclusive<'next, C>")],
          ensures=[E('item', 'r.index == id && *r.storage == *old(value).0 && r.entities == old(value).1 && r.bitset == old(value).2'),
                   E('link', '*final(value).0 == *final(r.storage) && final(value).1 == old(value).1 && final(value).2 == old(value).2')])
+    # non-lending / parallel `&mut RestrictedStorage` members: only `open` (mask = the storage's mask, the handle wraps the same storage);
+    # their `get` duplicates the raw handle (SharedGetOnly::duplicate), which N3 cannot express
+    for (trait, t) in (('Join', 'j'), ('ParJoin', 'pj')):
+        RMH2 = "impl<'rf, C, S> %s for &'rf mut RestrictedStorage<'rf, C, S>" % trait
+        u.fn(RSF, [RMH2, 'fn open'], ret='r', props='C13 C06' if trait == 'Join' else 'C07', free='restricted_mut_%s_open' % t, key='%s_restricted_mut::open' % t,
+             rules=NB + [('N12', r'fn open\(self\)', "fn open<'rf, C: Component>(self_: &'rf mut RestrictedStorage<'rf, C, &'rf mut C::Storage>)"),
+                         ('N12', r'Self::Mask', "&'rf BitSet"), ('N12', r'Self::Value', "SharedGetOnly<'rf, C, C::Storage>"), ('N12', r'\bself\b', 'self_')],
+             ensures=[E('mask', 'r.0@ == old(self_).bitset@'), E('same', '*r.1.0 == *old(self_).data')])
     EF = 'src/world/entity.rs'
     for trait in ('Join', 'LendJoin'):
         t = 'j' if trait == 'Join' else 'lj'
